@@ -164,7 +164,31 @@ def evaluate(project, variants, sim_seed, info):
 WALL_LIMIT = {"quick": 240, "thorough": 1500}
 
 
+def run_self_amend_case():
+    """A plan creates a step and then announces that step's output as its own input (`amend(inp=...)`): with
+    one job the child cannot start while the plan holds the slot, the plan is deferred, PENDING creators make
+    their products unsafe, and the two wait for each other; with two jobs the child runs meanwhile."""
+    from simdirector import A, Project, plan_file
+
+    plan = [A.step("make x", out=["x.txt"]), A.nop(), A.nop(), A.amend(inp=["x.txt"]), A.read("x.txt")]
+    project = Project(scripts={"./plan.py": plan, "make x": [A.write("x.txt", "hi\n")]}, files={"plan.py": plan_file(plan)})
+    variants = [{"njob": 1, "schedule": ("fifo",)}, {"njob": 2, "schedule": ("fifo",)}, {"njob": 2, "schedule": ("lifo",)},
+                {"njob": 3, "schedule": ("random", 7)}]
+    found, summary = evaluate(project, variants, 11, {"family": "self-amend"})
+    out = []
+    for sig, what, extra in found:
+        if sig.startswith("returncode-class-depends-on-schedule"):
+            sig = sig + ":plan-amends-output-of-its-own-step"
+        out.append((sig, what, extra))
+    return out, summary
+
+
 async def search(ctx):
+    found, summary = await asyncio.to_thread(run_self_amend_case)
+    ctx.stats.programs += 1
+    ctx.stats.count("self-amend-scenario")
+    for sig, what, extra in found:
+        ctx.finding(Finding(PID, sig, what, {**extra, "how": "props/c02.py run_self_amend_case()"}))
     import time
 
     t0 = time.time()
